@@ -74,6 +74,25 @@ Qed.
 Lemma pws_shape l : nf l -> nf (pws l) /\ noadj (pws l).
 Proof. intros H. apply (pws_inv l []); [exact H|exact I]. Qed.
 
+Lemma pws_plain l : forall acc, noadj (rev acc ++ l) ->
+  fold_left prune_ws_step l acc = rev l ++ acc.
+Proof.
+  induction l as [|e l IH]; intros acc H; [reflexivity|]. cbn [fold_left].
+  assert (Hstep : prune_ws_step acc e = e :: acc).
+  { unfold prune_ws_step. destruct acc as [|pe acc']; [reflexivity|].
+    destruct (is_white e && is_white pe) eqn:E; [|reflexivity]. exfalso.
+    apply andb_true_iff in E. destruct E as [E1 E2]. cbn [rev] in H. rewrite <- app_assoc in H. cbn [app] in H.
+    clear - H E1 E2. induction (rev acc') as [|x t IHt]; cbn in H.
+    - destruct H as [[H|H] _]; congruence.
+    - destruct t as [|y t']; cbn in *; [destruct H as [_ [[H|H] _]]; congruence|]. apply IHt. apply H. }
+  rewrite Hstep, IH.
+  - cbn [rev]. rewrite <- app_assoc. reflexivity.
+  - cbn [rev]. rewrite <- app_assoc. exact H.
+Qed.
+
+Lemma pws_noadj l : noadj l -> pws l = l.
+Proof. intros H. unfold pws. rewrite pws_plain by exact H. rewrite app_nil_r. apply rev_involutive. Qed.
+
 Lemma prune_placeholders_pws es :
   prune_placeholders es = pws (filter (fun e => negb (is_placeholder e)) es).
 Proof. reflexivity. Qed.
@@ -251,6 +270,18 @@ Proof.
     destruct (is_ws_key k) eqn:E; [|reflexivity]. exfalso.
     apply (Hdis k); [destruct k; cbn in *; congruence|exact H1|exact H2].
 Qed.
+
+Lemma ks_sub : incl (dkeys O) (dkeys N) -> ks = dkeys N.
+Proof.
+  intros Hi. rewrite <- (addremove_left_order dkey_eqb dkey_eqb_eq _ _ (proj1 HN) (proj1 HO)) at 2.
+  symmetry. apply filter_all. apply Forall_forall. intros k Hk.
+  apply (mem_In dkey_eqb dkey_eqb_eq). apply (ar_keys_In _ _ _ (proj1 HN) (proj1 HO)) in Hk.
+  destruct Hk as [Hk|Hk]; [exact Hk|apply Hi; exact Hk].
+Qed.
+
+Lemma merge_two_sub_dvalues : incl (dkeys O) (dkeys N) ->
+  dvalues (merge_two N O keep) = pws (map valm (dkeys N)).
+Proof. intros Hi. rewrite (merge_two_dvalues N O keep HN HO), contents_vals, (ks_sub Hi). reflexivity. Qed.
 
 (* the older dict only has keys of the newer one (the new entities of serialize): the key
    order is the newer dict's, the shape is kept *)
